@@ -18,10 +18,6 @@ Local Notation wtof := (Content.wtof cand ceqb).
 Local Notation distinct := (distinct_contents cand ceqb).
 Local Notation condense_bs := (Core.condense_bs cand ceqb).
 Local Notation anonymous := (Content.anonymous cand).
-Local Notation unscored := (Content.unscored cand).
-Local Notation no_mixed := (Content.no_mixed cand ceqb).
-Local Notation all_pos := (Content.all_pos cand).
-Local Notation nonzero_contents := (Content.nonzero_contents cand ceqb).
 Local Notation ranking_eqb := (Core.ranking_eqb cand ceqb).
 Local Notation scores_eqb := (Core.scores_eqb cand ceqb).
 Local Notation ballot_eq := (Core.ballot_eq cand ceqb).
@@ -127,199 +123,97 @@ Proof.
     destruct s as [|x s]; [reflexivity|]. destruct C as [C|C]; [discriminate C | exact C].
 Qed.
 
-Lemma profile_eq_lowlevel p q :
-  profile_eq p q = true <->
-  (forall b, In b (condense_bs (ballots p)) -> exists b', In b' (condense_bs (ballots q)) /\ wm b' b) /\
-  (forall b, In b (condense_bs (ballots q)) -> exists b', In b' (condense_bs (ballots p)) /\ wm b' b).
+(* ---------- profile_eq: the condensed profiles give every content the same weight ---------- *)
+Lemma nonzero_wt_iff (b : ballot) : Core.nonzero_wt cand b = true <-> ~ wt b == 0.
 Proof.
-  pose proof (condense_anon cand ceqb (ballots p)) as Ap.
-  pose proof (condense_anon cand ceqb (ballots q)) as Aq.
-  rewrite Forall_forall in Ap, Aq.
-  unfold Core.profile_eq. cbv zeta. rewrite andb_true_iff, !forallb_forall.
-  split; intros [A B]; split; intros b Hb.
-  - specialize (A b Hb). apply existsb_exists in A as [b' [Hb' E]].
-    exists b'. split; [exact Hb'|]. apply ballot_eq_anon; [apply Aq; exact Hb' | exact E].
-  - specialize (B b Hb). apply existsb_exists in B as [b' [Hb' E]].
-    exists b'. split; [exact Hb'|]. apply ballot_eq_anon; [apply Ap; exact Hb' | exact E].
-  - destruct (A b Hb) as [b' [Hb' W]]. apply existsb_exists. exists b'. split; [exact Hb'|].
-    apply ballot_eq_anon; [apply Aq; exact Hb' | exact W].
-  - destruct (B b Hb) as [b' [Hb' W]]. apply existsb_exists. exists b'. split; [exact Hb'|].
-    apply ballot_eq_anon; [apply Ap; exact Hb' | exact W].
+  unfold Core.nonzero_wt. rewrite negb_true_iff. split.
+  - apply Qeq_bool_neq.
+  - intro H. destruct (Qeq_bool (wt b) 0) eqn:E; [|reflexivity].
+    apply Qeq_bool_iff in E. contradiction.
 Qed.
 
-Lemma wm_refl b : wm b b.
-Proof. split; [apply rk_refl|]. split; [reflexivity|]. right. apply sc_refl. Qed.
+Lemma content_in_iff b l :
+  Core.content_in cand ceqb b l = true <-> exists b', In b' l /\ same b b' = true /\ wt b == wt b'.
+Proof.
+  unfold Core.content_in. rewrite existsb_exists. split; intros [x [Hx H]]; exists x; split; try exact Hx.
+  - apply andb_true_iff in H as [S W]. apply Qeq_bool_iff in W. split; [exact S | exact W].
+  - destruct H as [S W]. apply andb_true_iff. split; [exact S | apply Qeq_bool_iff; exact W].
+Qed.
+
+(* in a list of distinct contents, a content of non-zero weight is one non-zero-weight ballot *)
+Lemma distinct_nonzero_ex l k :
+  distinct l -> ~ wtof k l == 0 ->
+  exists c, In c (filter (Core.nonzero_wt cand) l) /\ same k c = true /\ wtof k l == wt c.
+Proof.
+  intros D N. pose proof N as N'. apply (wtof_nonzero_ex cand ceqb) in N' as [c [Hc S]].
+  pose proof (dw l D k c Hc S) as W. exists c. split; [|split; [exact S | exact W]].
+  apply filter_In. split; [exact Hc|]. apply nonzero_wt_iff. rewrite <- W. exact N.
+Qed.
+
+Lemma eq_half l1 l2 k :
+  distinct l1 -> distinct l2 ->
+  (forall b, In b (filter (Core.nonzero_wt cand) l1) ->
+             Core.content_in cand ceqb b (filter (Core.nonzero_wt cand) l2) = true) ->
+  ~ wtof k l1 == 0 -> wtof k l1 == wtof k l2.
+Proof.
+  intros D1 D2 A N.
+  destruct (distinct_nonzero_ex l1 k D1 N) as [c [Hc [S W]]].
+  apply A in Hc. apply content_in_iff in Hc as [b' [Hb' [S' W']]].
+  apply filter_In in Hb' as [Hb' _].
+  rewrite W, W'. symmetry. apply (dw l2 D2 k b' Hb').
+  eapply same_trans; eassumption.
+Qed.
+
+Lemma profile_eq_unfold p q :
+  profile_eq p q = true <->
+  (forall b, In b (filter (Core.nonzero_wt cand) (condense_bs (ballots p))) ->
+     Core.content_in cand ceqb b (filter (Core.nonzero_wt cand) (condense_bs (ballots q))) = true) /\
+  (forall b, In b (filter (Core.nonzero_wt cand) (condense_bs (ballots q))) ->
+     Core.content_in cand ceqb b (filter (Core.nonzero_wt cand) (condense_bs (ballots p))) = true).
+Proof.
+  unfold Core.profile_eq. cbv zeta. rewrite andb_true_iff, !forallb_forall. reflexivity.
+Qed.
+
+Lemma complete_half P Q :
+  (forall k, wtof k P == wtof k Q) ->
+  forall b, In b (filter (Core.nonzero_wt cand) (condense_bs P)) ->
+    Core.content_in cand ceqb b (filter (Core.nonzero_wt cand) (condense_bs Q)) = true.
+Proof.
+  intros W b Hb. apply filter_In in Hb as [Hb NZ]. apply nonzero_wt_iff in NZ.
+  pose proof (dw _ (cd P) b b Hb (same_refl b)) as Wb.
+  assert (~ wtof b (condense_bs Q) == 0) as N.
+  { rewrite (cw b Q), <- (W b), <- (cw b P), Wb. exact NZ. }
+  destruct (distinct_nonzero_ex _ b (cd Q) N) as [c [Hc [S Wc]]].
+  apply content_in_iff. exists c. split; [exact Hc|]. split; [exact S|].
+  rewrite <- Wc, (cw b Q), <- (W b), <- (cw b P). symmetry. exact Wb.
+Qed.
+
+(* the coded __eq__ is exactly "same total weight for every content", for ALL profiles *)
+Lemma profile_eq_iff p q :
+  profile_eq p q = true <-> forall k, wtof k (ballots p) == wtof k (ballots q).
+Proof.
+  rewrite profile_eq_unfold. split.
+  - intros [A B] k. rewrite <- (cw k (ballots p)), <- (cw k (ballots q)).
+    destruct (Qeq_dec (wtof k (condense_bs (ballots p))) 0) as [Zp|Np].
+    + destruct (Qeq_dec (wtof k (condense_bs (ballots q))) 0) as [Zq|Nq].
+      * rewrite Zp, Zq. reflexivity.
+      * symmetry. apply eq_half; try apply cd; assumption.
+    + apply eq_half; try apply cd; assumption.
+  - intro W. split.
+    + apply complete_half. exact W.
+    + apply complete_half. intro k. symmetry. apply W.
+Qed.
 
 Lemma profile_eq_refl p : profile_eq p p = true.
-Proof.
-  apply profile_eq_lowlevel. split; intros b Hb; exists b; (split; [exact Hb | apply wm_refl]).
-Qed.
+Proof. apply profile_eq_iff. intro k. reflexivity. Qed.
 
 Lemma profile_eq_sym p q : profile_eq p q = profile_eq q p.
 Proof. unfold Core.profile_eq. cbv zeta. apply andb_comm. Qed.
 
-(* ---------- from the low-level condition to content weights and back ---------- *)
-Lemma same_of_wm_scores a b :
-  ranking_eqb (rk a) (rk b) = true -> scores_eqb (sc a) (sc b) = true -> same a b = true.
-Proof. intros A B. apply same_iff. split; assumption. Qed.
-
-(* one direction of the comparison, stated for lists *)
-Lemma half_char_to P Q :
-  (forall c, In c (condense_bs P) -> exists b', In b' (condense_bs Q) /\ wm b' c) ->
-  forall b, In b P -> wtof b Q == wtof b P \/ wtof (unscored b) Q == wtof b P.
+Lemma profile_eq_trans p q r :
+  profile_eq p q = true -> profile_eq q r = true -> profile_eq p r = true.
 Proof.
-  intros H b Hb.
-  destruct (condense_covers cand ceqb ceqb_spec P b Hb) as [c [Hc Scb]].
-  assert (wtof b P == wt c) as WP.
-  { rewrite <- (cw b P). apply (dw _ (cd P) b c Hc). rewrite same_sym. exact Scb. }
-  destruct (H c Hc) as [b' [Hb' [R [W [S|S]]]]].
-  - right. rewrite WP, <- W, <- (cw (unscored b) Q).
-    apply (dw _ (cd Q) (unscored b) b' Hb'). apply same_iff. cbn [Content.unscored rk sc].
-    split.
-    + apply same_iff in Scb as [Rcb _]. rewrite rk_sym.
-      eapply rk_trans; [exact R | exact Rcb].
-    + rewrite S. reflexivity.
-  - left. rewrite WP, <- W, <- (cw b Q).
-    apply (dw _ (cd Q) b b' Hb').
-    eapply same_trans; [rewrite same_sym; exact Scb|].
-    rewrite same_sym. apply same_of_wm_scores; assumption.
-Qed.
-
-Lemma half_char_from P Q :
-  nonzero_contents P ->
-  (forall b, In b P -> wtof b Q == wtof b P \/ wtof (unscored b) Q == wtof b P) ->
-  forall c, In c (condense_bs P) -> exists b', In b' (condense_bs Q) /\ wm b' c.
-Proof.
-  intros NZ H c Hc.
-  destruct (condense_no_invented cand ceqb P c Hc) as [y [Hy [Ery Esy]]].
-  assert (same y c = true) as Syc.
-  { rewrite (same_ext_r cand ceqb c y y Ery Esy). apply same_refl. }
-  assert (wtof y P == wt c) as WP.
-  { rewrite <- (cw y P). apply (dw _ (cd P) y c Hc Syc). }
-  pose proof (NZ y Hy) as NZy.
-  destruct (H y Hy) as [E|E].
-  - assert (~ wtof y (condense_bs Q) == 0) as N.
-    { rewrite (cw y Q), E. exact NZy. }
-    apply (wtof_nonzero_ex cand ceqb) in N as [b' [Hb' S]].
-    exists b'. split; [exact Hb'|].
-    assert (same b' c = true) as Sb'c.
-    { eapply same_trans; [rewrite same_sym; exact S | exact Syc]. }
-    apply same_iff in Sb'c as [R Sc]. split; [exact R|]. split; [|right; exact Sc].
-    rewrite <- WP, <- E, <- (cw y Q). symmetry. apply (dw _ (cd Q) y b' Hb' S).
-  - assert (~ wtof (unscored y) (condense_bs Q) == 0) as N.
-    { rewrite (cw (unscored y) Q), E. exact NZy. }
-    apply (wtof_nonzero_ex cand ceqb) in N as [b' [Hb' S]].
-    exists b'. split; [exact Hb'|].
-    pose proof S as S'. apply same_iff in S' as [R Sc]. cbn [Content.unscored rk sc] in R, Sc.
-    apply (scores_eqb_nil_l cand ceqb) in Sc.
-    split; [|split; [|left; exact Sc]].
-    + rewrite Ery, rk_sym. exact R.
-    + rewrite <- WP, <- E, <- (cw (unscored y) Q). symmetry.
-      apply (dw _ (cd Q) (unscored y) b' Hb' S).
-Qed.
-
-Lemma all_pos_nonzero bs : all_pos bs -> nonzero_contents bs.
-Proof.
-  intros P b Hb E.
-  assert (0 < wtof b bs) as L.
-  { apply (wtof_pos cand ceqb); [exact P|]. exists b. split; [exact Hb | apply same_refl]. }
-  rewrite E in L. exact (Qlt_irrefl _ L).
-Qed.
-
-(* exact characterisation of the coded __eq__ (wild-card included) *)
-Lemma profile_eq_char p q :
-  nonzero_contents (ballots p) -> nonzero_contents (ballots q) ->
-  (profile_eq p q = true <->
-   (forall b, In b (ballots p) ->
-      wtof b (ballots q) == wtof b (ballots p) \/ wtof (unscored b) (ballots q) == wtof b (ballots p)) /\
-   (forall b, In b (ballots q) ->
-      wtof b (ballots p) == wtof b (ballots q) \/ wtof (unscored b) (ballots p) == wtof b (ballots q))).
-Proof.
-  intros NP NQ. rewrite profile_eq_lowlevel. split; intros [A B]; split.
-  - apply half_char_to. exact A.
-  - apply half_char_to. exact B.
-  - apply half_char_from; assumption.
-  - apply half_char_from; assumption.
-Qed.
-
-Lemma profile_eq_complete p q :
-  nonzero_contents (ballots p) -> nonzero_contents (ballots q) ->
-  (forall k, wtof k (ballots p) == wtof k (ballots q)) -> profile_eq p q = true.
-Proof.
-  intros NP NQ W. apply profile_eq_char; [exact NP | exact NQ|]. split; intros b Hb; left.
-  - symmetry. apply W.
-  - apply W.
-Qed.
-
-(* with no ranking cast both scored and unscored, the wild-card is never exercised *)
-Lemma wm_same_nm L x y x0 y0 :
-  no_mixed L -> In x0 L -> In y0 L ->
-  rk x = rk x0 -> sc x = sc x0 -> rk y = rk y0 -> sc y = sc y0 ->
-  wm x y -> same x y = true.
-Proof.
-  intros NM Hx Hy Rx Sx Ry Sy [R [_ [S|S]]].
-  - apply same_iff. split; [exact R|].
-    assert (sc y0 = []) as E.
-    { apply (NM x0 y0 Hx Hy); [rewrite <- Rx, <- Ry; exact R | rewrite <- Sx; exact S]. }
-    rewrite S, Sy, E. reflexivity.
-  - apply same_iff. split; assumption.
-Qed.
-
-Lemma profile_eq_sound p q :
-  no_mixed (ballots p ++ ballots q) -> profile_eq p q = true ->
-  forall k, wtof k (ballots p) == wtof k (ballots q).
-Proof.
-  intros NM E k. apply profile_eq_lowlevel in E as [A B].
-  set (P := ballots p) in *. set (Q := ballots q) in *.
-  rewrite <- (cw k P), <- (cw k Q).
-  assert (forall c b', In c (condense_bs P) -> In b' (condense_bs Q) -> wm b' c -> same b' c = true) as KA.
-  { intros c b' Hc Hb' W.
-    destruct (condense_no_invented cand ceqb P c Hc) as [y [Hy [Ey Sy]]].
-    destruct (condense_no_invented cand ceqb Q b' Hb') as [z [Hz [Ez Sz]]].
-    apply (wm_same_nm (P ++ Q) b' c z y NM); try assumption; apply in_or_app; [right|left]; assumption. }
-  assert (forall c b', In c (condense_bs Q) -> In b' (condense_bs P) -> wm b' c -> same b' c = true) as KB.
-  { intros c b' Hc Hb' W.
-    destruct (condense_no_invented cand ceqb Q c Hc) as [y [Hy [Ey Sy]]].
-    destruct (condense_no_invented cand ceqb P b' Hb') as [z [Hz [Ez Sz]]].
-    apply (wm_same_nm (P ++ Q) b' c z y NM); try assumption; apply in_or_app; [left|right]; assumption. }
-  destruct (existsb (fun x => same x k) (condense_bs P)) eqn:Ek.
-  - apply existsb_exists in Ek as [c [Hc Sck]].
-    destruct (A c Hc) as [b' [Hb' W]]. pose proof (KA c b' Hc Hb' W) as Sb'c.
-    destruct W as [_ [W _]].
-    rewrite (dw _ (cd P) k c Hc); [|rewrite same_sym; exact Sck].
-    rewrite (dw _ (cd Q) k b' Hb'); [symmetry; exact W|].
-    rewrite same_sym. eapply same_trans; eassumption.
-  - assert (forall x, In x (condense_bs P) -> same x k = false) as NP.
-    { intros x Hx. destruct (same x k) eqn:F; [|reflexivity].
-      assert (existsb (fun x => same x k) (condense_bs P) = true) as T
-        by (apply existsb_exists; exists x; split; assumption).
-      rewrite T in Ek. discriminate Ek. }
-    rewrite (wtof_none cand ceqb k (condense_bs P)).
-    + symmetry. apply (wtof_none cand ceqb). intros x Hx.
-      destruct (same k x) eqn:F; [|reflexivity]. exfalso.
-      destruct (B x Hx) as [b'' [Hb'' W]]. pose proof (KB x b'' Hx Hb'' W) as S.
-      assert (same b'' k = true) as T.
-      { eapply same_trans; [exact S|]. rewrite same_sym. exact F. }
-      rewrite (NP b'' Hb'') in T. discriminate T.
-    + intros x Hx. rewrite same_sym. apply NP. exact Hx.
-Qed.
-
-Lemma profile_eq_iff_nonzero p q :
-  nonzero_contents (ballots p) -> nonzero_contents (ballots q) ->
-  no_mixed (ballots p ++ ballots q) ->
-  (profile_eq p q = true <-> forall k, wtof k (ballots p) == wtof k (ballots q)).
-Proof.
-  intros NP NQ NM. split.
-  - apply profile_eq_sound. exact NM.
-  - apply profile_eq_complete; assumption.
-Qed.
-
-Lemma profile_eq_iff p q :
-  all_pos (ballots p) -> all_pos (ballots q) ->
-  no_mixed (ballots p ++ ballots q) ->
-  (profile_eq p q = true <-> forall k, wtof k (ballots p) == wtof k (ballots q)).
-Proof.
-  intros PP PQ. apply profile_eq_iff_nonzero; apply all_pos_nonzero; assumption.
+  rewrite !profile_eq_iff. intros A B k. rewrite (A k). apply B.
 Qed.
 
 (* ---------- __add__ ---------- *)
@@ -362,42 +256,26 @@ Proof. eexists. apply profile_add_total. Qed.
 
 End C11Profile.
 
-(* ---------- boundary counterexamples (cand := positive) ---------- *)
+(* ---------- former boundary cases of the coded __eq__, now behaving as the property says ---------- *)
 Definition ex_b (r : list (list positive)) (w : Q) (s : list (positive * Q)) : ballot positive :=
   mkBallot r w s None None.
 
-(* an extra zero-weight ballot: same weight for every content, yet unequal *)
+(* an extra zero-weight ballot does not change any content weight: the profiles are equal *)
 Definition ex_z1 : profile positive := mkProfile [ex_b [[1%positive]] 1 []] [1%positive].
 Definition ex_z2 : profile positive :=
   mkProfile [ex_b [[1%positive]] 1 []; ex_b [[2%positive]] 0 []] [1%positive].
 
-Lemma eq_zero_weight_refuted :
-  exists p q : profile positive,
-    (forall k, wtof positive Pos.eqb k (ballots p) == wtof positive Pos.eqb k (ballots q)) /\
-    profile_eq positive Pos.eqb p q = false.
-Proof.
-  exists ex_z1, ex_z2. split; [|vm_compute; reflexivity].
-  intro k. unfold wtof. cbn [ballots ex_z1 ex_z2 filter].
-  destruct (same_content positive Pos.eqb k (ex_b [[1%positive]] 1 []));
-    destruct (same_content positive Pos.eqb k (ex_b [[2%positive]] 0 []));
-    vm_compute; reflexivity.
-Qed.
+Lemma eq_zero_weight_example : profile_eq positive Pos.eqb ex_z1 ex_z2 = true.
+Proof. vm_compute. reflexivity. Qed.
 
-(* the empty-scores wild-card: equal according to the code, different content weights *)
+(* same rankings and weights but different scores: unequal (no wild-card on missing scores) *)
 Definition ex_w1 : profile positive :=
   mkProfile [ex_b [[1%positive]] 1 [(1%positive, 1)]; ex_b [[1%positive]] 1 []] [1%positive].
 Definition ex_w2 : profile positive :=
   mkProfile [ex_b [[1%positive]] 1 [(1%positive, 2)]; ex_b [[1%positive]] 1 []] [1%positive].
 
-Lemma eq_wildcard_refuted :
-  exists p q : profile positive,
-    all_pos positive (ballots p) /\ all_pos positive (ballots q) /\
-    profile_eq positive Pos.eqb p q = true /\
-    exists k, ~ wtof positive Pos.eqb k (ballots p) == wtof positive Pos.eqb k (ballots q).
-Proof.
-  exists ex_w1, ex_w2. split; [|split; [|split]].
-  - intros b [<-|[<-|[]]]; reflexivity.
-  - intros b [<-|[<-|[]]]; reflexivity.
-  - vm_compute. reflexivity.
-  - exists (ex_b [[1%positive]] 1 [(1%positive, 1)]). vm_compute. intro H. discriminate H.
-Qed.
+Lemma eq_wildcard_example :
+  profile_eq positive Pos.eqb ex_w1 ex_w2 = false /\
+  ~ wtof positive Pos.eqb (ex_b [[1%positive]] 1 [(1%positive, 1)]) (ballots ex_w1) ==
+    wtof positive Pos.eqb (ex_b [[1%positive]] 1 [(1%positive, 1)]) (ballots ex_w2).
+Proof. split; [vm_compute; reflexivity | vm_compute; intro H; discriminate H]. Qed.
